@@ -11,6 +11,7 @@ ops (one output line each):
                           runQueue picks afterwards when both outgoingWork and done are ready
   shutdown
   xalloc <n> | xrel <n>   another peer (id 1) allocates / releases on the shared allocator
+  oalloc <n> | orel <n> | orelpeer   another queue of THIS peer (overlap) allocates / releases / exits
 -/
 namespace GS.Driver.MsgQueue
 open GS.Proto GS.MQ
@@ -147,6 +148,19 @@ def stepLine (d : D) (t : Toks) : D × String :=
     | some n =>
       render (settleD { d with s := step GS.Alloc.pickMin d.s (.env (.alloc 1 n d.xticket)), xticket := d.xticket + 1 } true)
     | none => (d, "bad-op")
+  | ["oalloc", n] =>
+    -- another queue of the SAME peer (overlap of a stopping queue and its successor) reserves memory
+    match n.toNat? with
+    | some n =>
+      render (settleD { d with s := step GS.Alloc.pickMin d.s (.env (.alloc 0 n d.xticket)), xticket := d.xticket + 1 } true)
+    | none => (d, "bad-op")
+  | ["orel", n] =>
+    match n.toNat? with
+    | some n => render (settleD { d with s := step GS.Alloc.pickMin d.s (.env (.release 0 n)) } true)
+    | none => (d, "bad-op")
+  | ["orelpeer"] =>
+    -- the other queue of this peer exits: ReleasePeerMemory(peer)
+    render (settleD { d with s := step GS.Alloc.pickMin d.s (.env (.releasePeer 0)) } true)
   | ["xrel", n] =>
     match n.toNat? with
     | some n => render (settleD { d with s := step GS.Alloc.pickMin d.s (.env (.release 1 n)) } true)
